@@ -2,7 +2,7 @@
    Oracles (universally quantified): email.header.decode_header, bytes.decode, email.utils.getaddresses,
    str.lower, mimetypes.guess_type, every extractor (`run`); the MIME tree / mailparser record are inputs. *)
 From Coq Require Import ZArith List Bool.
-From S2T Require Import Lib.PyStr C03.Lib C03.Extract C03.ProofsM C16.Model C16.ProofsMbox C16.ProofsMail C16.ProofsMsg.
+From S2T Require Import Lib.PyStr C03.Lib C03.Extract C03.ProofsM C16.Model C16.ProofsMbox C16.ProofsMail C16.ProofsMsg C16.Loop.
 From S2T Require C07.Model.
 Import ListNotations.
 Open Scope N_scope.
@@ -344,6 +344,34 @@ Theorem C16_eml_attachments_count :
     forall i a, nth_error recs i = Some a -> nth_error (eml_attachments T recs) i = Some (eml_attachment T a).
 Proof. exact eml_attachments_count. Qed.
 Print Assumptions C16_eml_attachments_count.
+
+(* the attachment loop of _read_eml_format, as a skeleton translated from today's ast (Gen/C16Tables.v, obligation
+   C16_eml_attachment_loop_appends_once in Inst.v): a body with exactly one top-level append and no way to leave the
+   iteration early appends exactly once on EVERY path, so n mailparser records give exactly n EmailAttachments and the
+   loop runs to its end *)
+Theorem C16_eml_loop_one_per_record :
+  forall (body : list st) (n : nat), appends_once body = true -> all_are (n, FNormal) (loop_outs body n).
+Proof. exact loop_count. Qed.
+Print Assumptions C16_eml_loop_one_per_record.
+
+Example C16_eml_loop_hyp : appends_once [SSkip; SIf [SIf [SSkip] [SSkip]] [SSkip]; SSkip; SAppend] = true
+                           /\ appends_once [SSkip; SIf [SContinue] []; SAppend] = false.
+Proof. split; reflexivity. Qed.
+Print Assumptions C16_eml_loop_hyp.
+
+(* exact bytes: an attachment handed over by mailparser as base64 text comes back as exactly its bytes (b"" included),
+   for every base64 codec pair with decode (encode d) = d; bytes payloads of non-binary records pass through unchanged *)
+Theorem C16_eml_attachment_bytes_exact :
+  forall b64decode b64encode utf8 : str -> str,
+    (forall d, b64decode (b64encode d) = d) ->
+    forall d, eml_attachment_data b64decode utf8 true (PStr (b64encode d)) = d.
+Proof. exact eml_attachment_bytes_exact. Qed.
+Print Assumptions C16_eml_attachment_bytes_exact.
+
+Theorem C16_eml_attachment_bytes_passthrough :
+  forall (b64decode utf8 : str -> str) (b : str), eml_attachment_data b64decode utf8 false (PBytes b) = b.
+Proof. exact eml_attachment_bytes_passthrough. Qed.
+Print Assumptions C16_eml_attachment_bytes_passthrough.
 
 (* ---------------------------------------------------------------- .msg (msg_parser / olefile are oracles) *)
 (* "Name <address>" without further angle brackets: the name (outer white space and quotes removed) and the address *)
